@@ -60,6 +60,10 @@ def decl_specs(tier):
                     opts['generate_for_pack'] = False
                 K = PKT('K', fields, **opts)
                 specs.append({'P': K, 'tag': '%s sbl=%s gen=%s' % (tag, sbl, gen)})
+                if gen and delimited and sbl is None:
+                    # the same field made optional: .when(t)
+                    KO = PKT('K', [('pre', I(1)), ('t', I(1)), ('d', ir.O(node, F('t'))), ('post', I(1))])
+                    specs.append({'P': KO, 'tag': '%s optional' % tag})
                 if gen and node['mode'] != 'eos' and '$' not in tag and sbl in (None, 3):
                     W = PKT('W', [('c', I(1)), ('items', S(R(K), F('c')))])
                     specs.append({'P': W, 'tag': '%s sbl=%s repeated' % (tag, sbl)})
@@ -81,13 +85,40 @@ def check_one(dc, st, raw, r):
                        dc.case(raw=raw), dc.snippet('print(%s.unpack(%r).pack())' % (dc.P['name'], raw)))
 
 
+def check_stability(dc, st, accepted):
+    """packets parsed earlier keep packing the same bytes while other inputs are parsed: the delimiter a
+    regexp matched belongs to the packet it was matched for"""
+    held = []
+    for raw in accepted[:12]:
+        u = ea.impl_unpack(dc.K, raw)
+        if u[0] == 'ok':
+            held.append((raw, u[1], ea.impl_pack(u[1])))
+        for raw0, p0, out0 in held:
+            now = ea.impl_pack(p0)
+            st.inc('stability_checks')
+            if now != out0:
+                st.violate('pack of an earlier packet changes: %s' % dc.spec['tag'].split()[0],
+                           'p = unpack(%r); p.pack() was %r; after unpack(%r) it is %r | %s' % (raw0, out0, raw, now, dc.src.replace('\n', '; ')),
+                           dc.case(raw=raw0, then=raw), dc.snippet('p = %s.unpack(%r); a = p.pack(); %s.unpack(%r); print(a, p.pack())' % (dc.P['name'], raw0, dc.P['name'], raw)))
+                return
+
+
 def check_decl(dc, st, tier, only=None):
     if only is not None:
         check_one(dc, st, only['raw'], ea.ref_parse(dc.P, only['raw']))
+        if 'then' in only:
+            check_stability(dc, st, [only['raw'], only['then']])
         return
     budget = 10000 if tier == 'quick' else 70000
+    accepted = []
     for raw, r in ea.inputs_for(dc, budget, ext=False):
         check_one(dc, st, raw, r)
+        if r[0] == 'ok' and len(raw) >= 3:
+            accepted.append(raw)
+    if 'regex' in dc.feats:
+        # prefer inputs whose delimiters differ: longest first
+        accepted.sort(key=lambda b: (-len(b), b))
+        check_stability(dc, st, accepted[:6] + accepted[-6:])
 
 
 def run(tier):
